@@ -292,12 +292,24 @@ def run(tier, seed):
     cat = {c: [s for s in S.catalogue() if c in {"hull": ["MeshGraph"], "box": ["Box"], "sphere": ["Sphere"], "capsule": ["Capsule"],
            "cylinder": ["Cylinder"], "cone": ["Cone"], "ellipsoid": ["Ellipsoid"], "disk": ["Disk"], "ellipse": ["Ellipse"]}[s["kind"]]]
            for c in STORAGE}
+    # memo patterns for EVERY class (with and without Margin): observe, pose rewritten in place and passed again, observe - the
+    # first query after the update repeats the last query before it with the very same collider and array objects
+    O = {"op": "observe", "c": "c1", "a": "-", "p": "-"}
+    memo = [[{"op": "construct", "c": "c1", "a": "a1", "p": "P1"}, O, {"op": "update", "c": "c1", "a": "a1", "p": "P2"}, O],
+            [{"op": "construct", "c": "c1", "a": "a1", "p": "P1"}, O, {"op": "update", "c": "c1", "a": "a2", "p": "P2"}, O,
+             {"op": "update", "c": "c1", "a": "a2", "p": "P3"}, O, {"op": "update", "c": "c1", "a": "a1", "p": "P1"}, O]]
+    forced = []
+    for cls0 in sorted(STORAGE):
+        for mg in (False, True):
+            for h in memo:
+                forced.append((h, cls0, mg))
+    hists = [(h, None, None) for h in hists] + forced
     events, meta = [], {}
-    for i, h in enumerate(hists):
-        cls = rng.choice(sorted(STORAGE))
+    for i, (h, cls0, mg0) in enumerate(hists):
+        cls = cls0 or rng.choice(sorted(STORAGE))
         s = rng.choice(cat[cls])
         unit = rng.choice((1.0, 0.3, 2.0))
-        margin = unit * 0.5 if rng.random() < 0.25 else 0.0
+        margin = unit * 0.5 if (rng.random() < 0.25 if mg0 is None else mg0) else 0.0
         kind = "lattice" if rng.random() < 0.5 else "float"
         posevals = {p: rand_pose(rng, kind) for p in ("P1", "P2", "P3", "P4")}
         if rng.random() < 0.3:
